@@ -54,19 +54,19 @@ func SmallNames(alpha string, maxLen int) []string {
 type rkind int
 
 const (
-	kLit     rkind = iota // one literal byte (letter or digit)
-	kEscDot               // \.
-	kDot                  // .
-	kClass                // [..] / [^..]
-	kPerl                 // \d \w
-	kRaw                  // raw snippet with a fixed sample text (\x61, \Qa.b\E, [[:alpha:]])
-	kQuant                // sub{min,max}
-	kGroup                // ( sub ) / (?: sub ) / (?i: sub )
-	kConcat               //
-	kAlt                  //
-	kBegin                // ^  \A
-	kEnd                  // $  \z
-	kWordB                // \b
+	kLit    rkind = iota // one literal byte (letter or digit)
+	kEscDot              // \.
+	kDot                 // .
+	kClass               // [..] / [^..]
+	kPerl                // \d \w
+	kRaw                 // raw snippet with a fixed sample text (\x61, \Qa.b\E, [[:alpha:]])
+	kQuant               // sub{min,max}
+	kGroup               // ( sub ) / (?: sub ) / (?i: sub )
+	kConcat              //
+	kAlt                 //
+	kBegin               // ^  \A
+	kEnd                 // $  \z
+	kWordB               // \b
 )
 
 type rnode struct {
@@ -75,7 +75,7 @@ type rnode struct {
 	set      string // class members / sample text of kRaw / \d or \w
 	neg      bool
 	subs     []*rnode
-	min, max int // max -1 = unbounded
+	min, max int    // max -1 = unbounded
 	text     string // rendered quantifier, group opener, anchor or raw text
 }
 
@@ -89,8 +89,9 @@ type GenRegex struct {
 }
 
 // RegexGen generates regular expressions over a small alphabet.
-//   Letters: bytes used as literals (letters / digits only: they need no escaping)
-//   Dot:     also use '.', as \. (escaped), as wildcard and inside names
+//
+//	Letters: bytes used as literals (letters / digits only: they need no escaping)
+//	Dot:     also use '.', as \. (escaped), as wildcard and inside names
 type RegexGen struct {
 	Letters string
 	Dot     bool
